@@ -17,7 +17,10 @@ use std::io::{BufRead, BufReader, Write};
 use std::process::{Command, Stdio};
 use std::time::{Duration, Instant};
 
-const VERIF_DIR: &str = "/verif";
+/// Where known_findings.json, evidence/ and replays/ live (the directory of `check`).
+fn verif_dir() -> String {
+    std::env::var("SIMCHECK_DIR").unwrap_or_else(|_| "/verif".to_string())
+}
 
 fn find_family(name: &str) -> &'static Family {
     families::all()
@@ -386,7 +389,7 @@ struct Finding {
 }
 
 fn load_findings() -> Vec<Finding> {
-    let path = format!("{VERIF_DIR}/known_findings.json");
+    let path = format!("{}/known_findings.json", verif_dir());
     let Ok(text) = std::fs::read_to_string(&path) else { return Vec::new() };
     let Ok(v) = serde_json::from_str::<Value>(&text) else {
         die("known_findings.json does not parse");
@@ -548,7 +551,7 @@ fn make_replay(
     v: &Violation,
     errors: &mut Vec<String>,
 ) -> String {
-    let dir = format!("{VERIF_DIR}/replays");
+    let dir = format!("{}/replays", verif_dir());
     std::fs::create_dir_all(&dir).ok();
     let path = format!("{dir}/{}-{}-{:016x}.json", fam.property, fam.name, seed);
     // Minimise in a child process (isolates leaked threads and aborts).
@@ -859,7 +862,7 @@ fn write_evidence(
         "wall_s": wall,
         "violations": violations,
     });
-    let dir = format!("{VERIF_DIR}/evidence");
+    let dir = format!("{}/evidence", verif_dir());
     std::fs::create_dir_all(&dir).ok();
     let path = format!("{dir}/{prop}.json");
     std::fs::write(&path, serde_json::to_string_pretty(&doc).unwrap()).expect("write evidence");
